@@ -3,6 +3,7 @@ package props
 import (
 	"fmt"
 	"math"
+	"verif/harness/internal/tape"
 
 	"go.1password.io/spg"
 
@@ -82,12 +83,9 @@ func wlSupport(c supWL) error {
 	}
 	for it := 0; it < N; it++ {
 		k := ev.Mix64(c.Key, uint64(it))
-		o := callForced(nil, func(j int, n uint32) uint32 { return uint32(ev.Mix64(k, uint64(j)) % uint64(n)) }, k, r.Generate)
+		o := callRaw(&tape.Tape{TailKey: k | 1, Cap: 1 << 24}, r.Generate) // raw pseudo-random words: no hook contract needed
 		if o.Panic != nil || o.Pw == nil {
 			return fmt.Errorf("Generate failed: %v %v", o.Panic, o.Err)
-		}
-		if e := o.S.IndexLevelOK(); e != nil {
-			return &ev.Inc{Why: e.Error()}
 		}
 		// (the token layout itself is C05's business: a password this loop
 		// cannot read is not judged here)
@@ -127,13 +125,13 @@ func wlSupport(c supWL) error {
 	for p := 0; p < L; p++ {
 		for wi := 0; wi < mW; wi++ {
 			if !wordSeen[p][wi] {
-				return fmt.Errorf("word %q never appears at position %d of %d in %d generations driven by uniform index choices (each word must be equally likely at every position)", kept[wi], p, L, N)
+				return fmt.Errorf("word %q never appears at position %d of %d in %d generations driven by pseudo-random source words (each word must be equally likely at every position)", kept[wi], p, L, N)
 			}
 		}
 		switch w.Scheme {
 		case "one", "random":
 			if !capSeen[p] {
-				return fmt.Errorf("scheme %s, Length %d: position %d is never capitalised in %d generations driven by uniform index choices", w.Scheme, L, p, N)
+				return fmt.Errorf("scheme %s, Length %d: position %d is never capitalised in %d generations driven by pseudo-random source words", w.Scheme, L, p, N)
 			}
 			if !uncapSeen[p] && L > 1 {
 				return fmt.Errorf("scheme %s, Length %d: position %d is always capitalised in %d generations", w.Scheme, L, p, N)
@@ -187,7 +185,7 @@ func charSupport(c supChar) error {
 	}
 	for it := 0; it < N; it++ {
 		k := ev.Mix64(c.Key, uint64(it))
-		o := callForced(nil, func(j int, n uint32) uint32 { return uint32(ev.Mix64(k, uint64(j)) % uint64(n)) }, k, r.Generate)
+		o := callRaw(&tape.Tape{TailKey: k | 1, Cap: 1 << 24}, r.Generate) // raw pseudo-random words: no hook contract needed
 		if o.Panic != nil {
 			return fmt.Errorf("Generate panicked: %v", o.Panic)
 		}
@@ -205,7 +203,7 @@ func charSupport(c supChar) error {
 	for p := 0; p < L; p++ {
 		for u := 0; u < U; u++ {
 			if !seen[p][u] {
-				return fmt.Errorf("character %q never appears at position %d of %d in %d generations driven by uniform index choices (alphabet of %d)", ab[u], p, L, N, U)
+				return fmt.Errorf("character %q never appears at position %d of %d in %d generations driven by pseudo-random source words (alphabet of %d)", ab[u], p, L, N, U)
 			}
 		}
 	}
